@@ -231,3 +231,39 @@ def name_lookup_ok(gname, n, dup):
     except (ValueError, TypeError):
         pass
     return list(g.observers) == members
+
+
+def foreign_ok(gname, n):
+    """only observers of the group's own type are accepted: an observer of every other group's member type (and a non-observer) is
+    rejected with ValueError / TypeError by add_observer, by the constructor and by the observers setter (all enumerated), and the
+    group of symbolic size n keeps exactly its members"""
+    G = group_class(gname)
+    own = getattr(importlib.import_module(GROUPS[gname][1]), GROUPS[gname][2])
+    kinds = []
+    for g2, (_m, omod, oname) in sorted(GROUPS.items()):
+        cls = getattr(importlib.import_module(omod), oname)
+        if not issubclass(cls, own) and not issubclass(own, cls) and cls not in kinds:
+            kinds.append(cls)
+    kinds.append(Sphere)
+    g, members = _group_with_members(gname, n, n)
+    for cls in kinds:
+        for via in (0, 1, 2):
+            if 'TargettedPixel' in cls.__name__:
+                foreign = cls(targets=[Sphere(0.1)])
+            elif cls is Sphere:
+                foreign = Sphere(0.1)
+            else:
+                foreign = cls()
+            try:
+                if via == 0:
+                    g.add_observer(foreign)
+                elif via == 1:
+                    G(observers=[foreign])
+                else:
+                    g.observers = list(members) + [foreign]
+                return False
+            except (ValueError, TypeError):
+                pass
+            if len(g) != n or list(g.observers) != members or foreign.parent is g:
+                return False
+    return True
